@@ -519,6 +519,8 @@ func call(i *interpreter, caller *frame, callpos token.Pos, fn value, args []val
 		return callSSA(i, caller, callpos, fn.Fn, args, fn.Env)
 	case *ssa.Builtin:
 		return callBuiltin(caller, fn, args)
+	case hostFunc:
+		return fn(args)
 	}
 	panic(fmt.Sprintf("cannot call %T", fn))
 }
